@@ -6,7 +6,7 @@ from cvscen import inj_cv, cfg, pos, tf, num
 KB = 0.001987191   # colvarproxy boltzmann() in the "real" unit system
 RULE = ("metadynamics on 1-2 injected scalar variables (periodic or not), with and without grids, hill frequency 1-4, grid "
         "frequency equal to or a multiple of it, hillWidth or gaussianSigmas, keepHills, well-tempered, expandBoundaries; "
-        "trajectories are random walks with excursions beyond the grid boundaries and run boundaries (repeated step 0); "
+        "trajectories are random walks with excursions beyond the grid boundaries, repeated steps, and a first step that is not 0 (half of the cases); "
         "non-trivial = at least two hills deposited; distinct by op text")
 ASSUMPTIONS = ["Gaussians are truncated to zero when the exponent sum exceeds 23 (the code's documented 1e-5 cut): part of the specification used"]
 
@@ -54,6 +54,10 @@ def gen(rng, tier):
             body += " wellTempered on\n biasTemperature %s\n" % num(btemp)
         mconf = "metadynamics {\n%s}\n" % body
         lines = ["m.new %d" % nd, cfg(conf), cfg(mconf)]
+        # the engine's first step need not be 0 (a run continued by the engine, or a state loaded at that step)
+        it0 = 0 if (k % 2) == 0 else rng.randint(1, 3 * max(freq, gf) + 2)
+        if it0:
+            lines.append("m.opt it %d" % it0)
         lines += ["M.cv x%d %d %s %s %s 0" % (i, i, fbits(w[i]), fbits(per[i]), fbits(wc[i])) for i in range(nd)]
 
         def fl(l_):
@@ -88,13 +92,13 @@ def gen(rng, tier):
         lines.append("mt.dump mt")
         cases.append({"lines": lines, "meta": {"nd": nd, "grids": use_grids, "wt": wt, "keep": keep, "lo": lo, "hi": hi, "w": w, "period": per,
                                                 "wrap": wc, "expand": expand, "freq": freq, "gf": gf, "weight": weight, "sig": sig,
-                                                "hw": 0.0 if use_sig else hw, "tkb": btemp * KB, "history": hist},
+                                                "hw": 0.0 if use_sig else hw, "tkb": btemp * KB, "history": hist, "it0": it0},
                       "nontrivial": nsteps > 2 * freq})
     return cases
 
 
 def distribution(cases):
-    d = {"nd": {}, "grids": 0, "wt": 0, "keepHills": 0, "periodic": 0, "expand": 0, "gaussianSigmas": 0, "steps": 0, "offgrid_steps": 0}
+    d = {"nd": {}, "first_step_nonzero": sum(1 for c in cases if c["meta"].get("it0")), "grids": 0, "wt": 0, "keepHills": 0, "periodic": 0, "expand": 0, "gaussianSigmas": 0, "steps": 0, "offgrid_steps": 0}
     for c in cases:
         m = c["meta"]
         if "nd" not in m:
@@ -145,7 +149,8 @@ def oracle(case, out):
         return sum(h["W"] * gauss(h, xs) * pd(i, xs[i], h["c"][i]) / m["sig"][i] ** 2 for h in hs)
 
     projected, pending = [], []
-    it = 0; first = True
+    it0 = m.get("it0", 0)
+    it = it0; first = True
     for h in m["history"]:
         if first:
             first = False; cont = False
@@ -165,7 +170,7 @@ def oracle(case, out):
                         nx[i] += b[i] - (nx[i] - 1) + mb
         b = [int(math.floor((xs[i] - lo[i]) / w[i])) for i in range(nd)] if m["grids"] else None
         inside = m["grids"] and all(0 <= b[i] < nx[i] for i in range(nd))
-        elig = it > 0 and not cont
+        elig = it > it0 and not cont
         if elig and it % m["freq"] == 0:
             W = m["weight"]
             if m["wt"]:
